@@ -93,6 +93,7 @@ func closeVault(b *storelib.Backend, rec *storelib.Rec) {
 func main() {
 	nOps := flag.Int("oplists", 48, "number of operation-list cases")
 	nSingle := flag.Int("singles", 60, "number of create+read cases with big plans")
+	nPaged := flag.Int("paged", 9, "number of cosmosdb create+read cases with paged query results")
 	maxOps := flag.Int("max-ops", 30, "maximum operation list length")
 	backends := flag.String("backends", "sqlite-mem,sqlite-file,cosmos-fake", "comma separated")
 	out := flag.String("out", "-", "output file (JSONL)")
@@ -107,9 +108,41 @@ func main() {
 	root := core.NewRand(core.Seed())
 	bks := strings.Split(*backends, ",")
 
+	// family paged: cosmosdb with query results in pages of 1, 2, 3 items; plans whose sequences and check
+	// groups have 4-6 actions; Create then Read only, so the order Read returns is compared as it is
+	// (before any patch the fake hands items out in emission order)
+	for i := 0; i < *nPaged; i++ {
+		r := root.Fork(uint64(900000 + i))
+		bk := []string{"cosmos-page1", "cosmos-page2", "cosmos-page3"}[i%3]
+		set := storelib.NewSet()
+		b, err := storelib.Open(ctx, bk, set)
+		if err != nil {
+			fmt.Fprintln(os.Stderr, "open", bk, err)
+			os.Exit(2)
+		}
+		rec := storelib.NewRec(ctx, b, set)
+		rec.KeepOrder = true
+		rPlan := r.Fork(1) // fixed before r advances: every mk() is the same plan
+		mk := func() *workflow.Plan { return storelib.ManyActions(rPlan.Fork(0)) }
+		ref := mk()
+		rec.IDs = []uuid.UUID{ref.ID, plangen.V7(r)}
+		rec.Create(mk(), mk(), "create")
+		w.Put(core.Case{
+			ID: fmt.Sprintf("paged-%d", i), Kind: "paged", Coq: rec.CaseTerm(), Nontrivial: true, Hash: core.Hash(rec.CaseTerm()),
+			Dist: map[string]any{"backend": bk, "plans": 1, "ops": rec.Steps(), "reads": rec.Reads, "table": rec.TableSize(),
+				"ophist": rec.OpHist, "objects": objects([]*planSlot{{ref: ref}}), "page_size": b.PageSize},
+			Input: map[string]any{"seed": core.Seed(), "index": i, "backend": bk}, Observed: rec.Log, Note: rec.Note(),
+		})
+		closeVault(b, rec)
+	}
+
 	for i := 0; i < *nOps+*nSingle; i++ {
 		r := root.Fork(uint64(i))
 		bk := bks[i%len(bks)]
+		if bk == "cosmos-fake" {
+			// the real service pages query results: rotate the page size of the fake's query answers
+			bk = []string{"cosmos-fake", "cosmos-page1", "cosmos-page2", "cosmos-page3"}[(i/len(bks))%4]
+		}
 		single := i >= *nOps
 		set := storelib.NewSet()
 		b, err := storelib.Open(ctx, bk, set)
